@@ -118,12 +118,11 @@ Proof. intros H. unfold ralign, add32. rewrite chk32_ok.
   - apply in_i32_small. unfold two31, two30, AL, GenConsts.RB_ALIGNMENT in *. lia. Qed.
 
 Lemma lacks_ok m cp rq tl hd :
-  0 < cp <= two30 -> 0 <= tl - hd < two31 -> - two62 <= hd -> tl < two62 ->
+  0 < cp <= two30 -> 0 <= hd <= two62 -> 0 <= tl <= two62 ->
   lacks m cp rq tl hd = Ok (rq >? cp - (tl - hd)).
-Proof. intros Hc Hd Hh Ht. unfold lacks, avail, sub64, sub32.
-  rewrite chk64_ok by (apply in_i64_small; unfold two63, two62, two31 in *; lia). cbn [bind].
-  rewrite wrap32_id by (apply in_i32_small; unfold two31 in *; lia).
-  rewrite chk32_ok by (apply in_i32_small; unfold two31, two30 in *; lia). reflexivity. Qed.
+Proof. intros Hc Hh Ht. unfold lacks, avail, sub64.
+  rewrite chk64_ok by (apply in_i64_small; unfold two63, two62 in *; lia). cbn [bind].
+  rewrite chk64_ok by (apply in_i64_small; unfold two63, two62, two30 in *; lia). reflexivity. Qed.
 
 Lemma wrap_needed_ok m cp rq tl : cap_ok cp ->
   wrap_needed m cp rq tl = Ok (if rq >? cp - tl mod cp then Some (cp - tl mod cp) else None).
